@@ -309,7 +309,7 @@ class Explorer:
         for v in s.ghost.values():
             collect(v)
         keep = lambda a: a in live or a.startswith(STABLE_PREFIX)
-        s.facts.drop_atoms(lambda a: not keep(a))
+        s.facts.project_out(lambda a: not keep(a))
         s.prov = {}
         # nullness of objects that no longer exist
         def live_ptr(name):
